@@ -56,6 +56,13 @@ def _build(kind, cfg):
             c["delay"] = c["delay"] * cfg["dt0"] / dt
             c["delays"] = "zero"
         return B.make_connection(c, dt, bsz)
+    if kind == "record":
+        from inferno.core.infrastructure import Module, RecordTensor
+
+        m = Module()
+        RecordTensor.create(m, "rec", dt, cfg["duration"], torch.zeros(tuple(cfg["shape"])), inclusive=cfg["inclusive"])
+        m.clear = lambda: m.rec.reset(0)
+        return m
     if kind == "reducer":
         dur = cfg["duration"]
         name = cfg["red"]
@@ -77,10 +84,13 @@ GETTERS = {
     "synapse": ["dt", "delay", "batchsz", "inplace"],
     "connection": ["dt", "batchsz"],
     "reducer": ["dt", "duration", "inplace"],
+    "record": ["dt", "duration", "inclusive"],
 }
 
 
 def _get(kind, obj):
+    if kind == "record":
+        obj = obj.rec
     return {g: getattr(obj, g) for g in GETTERS[kind]}
 
 
@@ -109,6 +119,13 @@ def _drive(kind, obj, cfg, xs, t):
         args = (xs["spk"][t],) if type(syn).__name__ != "DeltaPlusCurrent" else (xs["spk"][t].float(), xs["inj"][t])
         o = obj(*args)
         return {"out": o, "current": obj.synapse.current, "syncurrent": obj.syncurrent}
+    if kind == "record":
+        rec = obj.rec
+        rec.push(xs["obs"][t].float().reshape(-1)[: int(np.prod(cfg["shape"]) or 1)].reshape(tuple(cfg["shape"])))
+        obs = {f"read[{k}]": rec.read(k) for k in range(rec.recordsz)}
+        for j in range(rec.recordsz):
+            obs[f"select[{j}]"] = rec.select(j * rec.dt, tolerance=1e-9 * rec.dt)
+        return obs
     if kind == "reducer":
         x = xs["obs"][t]
         obj(x if cfg["red"] in ("trace", "nearest") else x.float())
@@ -132,11 +149,17 @@ def _inputs(kind, cfg, T, seed):
         inshape, _ = B.conn_shapes(cfg["conn"])
         return {"spk": torch.tensor(B.spikes_from(seed, T, (bsz,) + inshape, 0.5)),
                 "inj": torch.tensor(B.dyadic(seed + 1, (T, bsz) + inshape, -8, 8, 4), dtype=torch.float32)}
+    if kind == "record":
+        return {"obs": torch.tensor(B.dyadic(seed, (T, 6), -8, 8, 4), dtype=torch.float32)}
     return {"obs": torch.tensor(B.spikes_from(seed, T, (2, 3), 0.5))}
 
 
 def _apply(kind, obj, cfg, attr, val):
     """Assign one attribute on the instance and in the configuration dict."""
+    if kind == "record":
+        setattr(obj.rec, attr, val)
+        cfg[attr] = val
+        return None
     if attr == "dt":
         obj.dt = val
         cfg["dt"] = val
@@ -164,6 +187,8 @@ def _apply(kind, obj, cfg, attr, val):
 
 def _expected_getters(kind, cfg):
     g = {"dt": cfg["dt"]}
+    if kind == "record":
+        return {"dt": cfg["dt"], "duration": cfg["duration"], "inclusive": cfg["inclusive"]}
     if kind in ("neuron", "synapse", "connection"):
         g["batchsz"] = cfg["batch"]
     if kind == "synapse":
@@ -315,6 +340,10 @@ def _cfg(draw, kind):
                        "syn": {"cls": syncls, "q": 30.0, "tol": 1e-6}, "bias": draw(st.booleans()),
                        "delay": draw(st.sampled_from([None, 2])), "wseed": draw(st.integers(0, 999)), "dseed": draw(st.integers(0, 999))}
         cfg["syncls"] = syncls
+    elif kind == "record":
+        cfg["duration"] = draw(st.sampled_from([0.0, 1.0, 2.0, 3.0, 1.5]))
+        cfg["inclusive"] = draw(st.booleans())
+        cfg["shape"] = draw(st.sampled_from([[], [3], [2]]))
     else:
         cfg["red"] = draw(st.sampled_from(["CA", "EMA", "passthrough", "trace", "nearest"]))
         cfg["duration"] = draw(st.sampled_from([0.0, 1.0, 2.0, 3.0]))
@@ -324,7 +353,7 @@ def _cfg(draw, kind):
 
 @st.composite
 def path_case(draw, tier="quick"):
-    kind = draw(st.sampled_from(["neuron", "synapse", "synapse", "connection", "reducer", "reducer"]))
+    kind = draw(st.sampled_from(["neuron", "synapse", "synapse", "connection", "reducer", "reducer", "record", "record"]))
     cfg = draw(_cfg(kind))
     ops = []
     for _ in range(draw(st.integers(1, 6))):
@@ -335,6 +364,8 @@ def path_case(draw, tier="quick"):
             choices += ["synapse"]
         if kind == "reducer":
             choices = ["dt", "duration", "duration", "inplace"]
+        if kind == "record":
+            choices = ["dt", "duration", "inclusive", "inclusive"]
         a = draw(st.sampled_from(choices))
         if a == "dt":
             v = draw(st.sampled_from(_dts))
@@ -342,7 +373,7 @@ def path_case(draw, tier="quick"):
             v = draw(st.integers(1, 4))
         elif a == "delay":
             v = draw(st.integers(0, 5))
-        elif a == "inplace":
+        elif a in ("inplace", "inclusive"):
             v = draw(st.booleans())
         elif a == "duration":
             v = draw(st.sampled_from([0.0, 1.0, 2.0, 3.0, 4.0]))
@@ -365,7 +396,7 @@ LEGS = [
     Leg(name="setters", run=run_path, strategy=lambda tier: path_case(tier),
         quick=150, thorough=2000, quick_shards=6, thorough_shards=12, nt_floor=0.2,
         rule="neurons (dt, batchsz), synapses (dt, delay, batchsz, inplace), connections (dt, batchsz, replacement synapse), "
-             "reducers (dt, duration, inplace): start configuration + 1-6 assignments vs a freshly constructed instance of the "
+             "reducers (dt, duration, inplace), RecordTensor (dt, duration, inclusive): start configuration + 1-6 assignments vs a freshly constructed instance of the "
              "target configuration; non-trivial = the assignments changed a history size"),
     Leg(name="dtype", run=run_dtype, strategy=lambda tier: dtype_case(tier),
         quick=60, thorough=800, quick_shards=4, thorough_shards=8, nt_floor=0.5,
